@@ -1309,3 +1309,303 @@ StandIn("c14_a_star_small_grids", _c14_ex, _c14_check,
 StandIn("c14_a_star_random", _c14_cases, _c14_check,
         bound="random surfaces up to 6x6 with barriers and NaN, 4/8-connectivity, ascending/descending and fractional-step coordinates "
               "with offsets, requested points up to 0.45 cells off the centres, snapping on/off; against Dijkstra")
+
+
+# =========================================================================== C16 regions
+def _flood(a, n):
+    H, W = a.shape
+    lab = np.zeros((H, W), int)
+    c = 0
+    nb4 = [(0, 1), (1, 0), (0, -1), (-1, 0)]
+    nb = nb4 + [(1, 1), (1, -1), (-1, 1), (-1, -1)] if n == 8 else nb4
+    for i in range(H):
+        for j in range(W):
+            if lab[i, j] or np.isnan(a[i, j]):
+                continue
+            c += 1
+            st = [(i, j)]
+            lab[i, j] = c
+            while st:
+                y, x = st.pop()
+                for dy, dx in nb:
+                    yy, xx = y + dy, x + dx
+                    if 0 <= yy < H and 0 <= xx < W and not lab[yy, xx] and a[yy, xx] == a[y, x]:
+                        lab[yy, xx] = c
+                        st.append((yy, xx))
+    return lab
+
+
+def _same_partition(l1, l2, mask):
+    m, r = {}, {}
+    for u, v in zip(l1[mask].ravel(), l2[mask].ravel()):
+        if m.setdefault(u, v) != v or r.setdefault(v, u) != u:
+            return False
+    return True
+
+
+def _c16_cases(rng, tier, exhaustive=False):
+    if exhaustive:
+        shapes = [(3, 3), (2, 4), (1, 6), (6, 1)] + ([(3, 4), (4, 3), (2, 6)] if tier == "thorough" else [])
+        for (H, W) in shapes:
+            for bits in range(2 ** (H * W)):
+                for n in (4, 8):
+                    yield {"H": H, "W": W, "cells": [(bits >> k) & 1 for k in range(H * W)], "n": n, "dtype": "float64"}
+        return
+    while True:
+        H, W = rng.randint(1, 8), rng.randint(1, 8)
+        k = rng.choice([2, 3, 4])
+        cells = [rng.randrange(k) if rng.random() > 0.15 else "nan" for _ in range(H * W)]
+        dt = rng.choice(["float64", "float32", "int32"])
+        if dt == "int32":
+            cells = [0 if c == "nan" else c for c in cells]
+        yield {"H": H, "W": W, "cells": cells, "n": rng.choice([4, 8]), "dtype": dt}
+
+
+_c16_ex = lambda rng, tier: _c16_cases(rng, tier, True)
+_c16_ex.exhaustive = True
+
+
+def _c16_check(case):
+    import xarray as xr
+    from xrspatial.zonal import regions
+    H, W = case["H"], case["W"]
+    a = np.array([np.nan if c == "nan" else float(c) for c in case["cells"]], dtype="float64").reshape(H, W).astype(case["dtype"])
+    r = xr.DataArray(a, dims=["y", "x"], coords={"y": np.arange(H) * 2.0, "x": np.arange(W) * 1.0}, attrs={"res": (1, 2)})
+    out = regions(r, neighborhood=case["n"])
+    o = np.asarray(out.data, dtype="float64")
+    af = a.astype("float64")
+    m = ~np.isnan(af)
+    if not np.isnan(o[~m]).all():
+        return "NaN cells do not stay NaN"
+    if not (o[m] > 0).all():
+        return "labels are not all positive: %r" % o.tolist()
+    if not _same_partition(o, _flood(af, case["n"]), m):
+        return "labels %r are not the %d-connected components of %r" % (o.tolist(), case["n"], af.tolist())
+    if out.shape != r.shape or out.dims != r.dims or dict(out.attrs) != dict(r.attrs) or not all(
+            np.array_equal(out.coords[k].values, r.coords[k].values) for k in r.coords):
+        return "shape / dims / coords / attrs differ from the input's"
+    return None
+
+
+StandIn("c16_regions_small_grids", _c16_ex, _c16_check,
+        bound="every raster over {0,1} of shapes 3x3, 2x4, 1x6, 6x1 (thorough: + 3x4, 4x3, 2x6), neighbourhood 4/8, vs flood fill")
+StandIn("c16_regions_random", _c16_cases, _c16_check,
+        bound="random rasters up to 8x8 over 2-4 integer values with NaN cells, int32/float32/float64, neighbourhood 4/8, vs flood fill")
+
+
+# =========================================================================== C15 polygonize
+def _area2(p):
+    x, y = p[:, 0], p[:, 1]
+    return float(np.sum(x[:-1] * y[1:] - x[1:] * y[:-1]))
+
+
+def _inside(p, px, py):
+    c = False
+    for k in range(len(p) - 1):
+        x0, y0 = p[k]
+        x1, y1 = p[k + 1]
+        if (y0 > py) != (y1 > py):
+            xi = x0 + (py - y0) * (x1 - x0) / (y1 - y0)
+            if px < xi:
+                c = not c
+    return c
+
+
+def _c15_cases(rng, tier, exhaustive=False):
+    if exhaustive:
+        shapes = [(3, 3), (2, 4), (1, 5), (5, 1), (1, 1)] + ([(3, 4), (2, 5)] if tier == "thorough" else [])
+        for (H, W) in shapes:
+            for bits in range(2 ** (H * W)):
+                for conn in (4, 8):
+                    yield {"H": H, "W": W, "cells": [(bits >> k) & 1 for k in range(H * W)], "mask": None, "conn": conn, "dtype": "int64",
+                           "transform": None}
+        return
+    while True:
+        H, W = rng.randint(1, 8), rng.randint(1, 8)
+        k = rng.choice([2, 3])
+        cells = [rng.randrange(k) for _ in range(H * W)]
+        mask = [int(rng.random() < 0.8) for _ in range(H * W)] if rng.random() < 0.5 else None
+        tr = [2.0, 0.0, 10.0, 0.0, -3.0, 5.0] if rng.random() < 0.3 else None
+        yield {"H": H, "W": W, "cells": cells, "mask": mask, "conn": rng.choice([4, 8]), "dtype": rng.choice(["int64", "float64", "int32"]),
+               "transform": tr}
+
+
+_c15_ex = lambda rng, tier: _c15_cases(rng, tier, True)
+_c15_ex.exhaustive = True
+
+
+def _c15_check(case):
+    import xarray as xr
+    from xrspatial.experimental.polygonize import polygonize
+    H, W = case["H"], case["W"]
+    a = np.array(case["cells"], dtype=case["dtype"]).reshape(H, W)
+    mask = None if case["mask"] is None else np.array(case["mask"], dtype=bool).reshape(H, W)
+    tr = case["transform"]
+    kw = {}
+    if tr is not None:
+        kw["transform"] = np.array(tr)
+    col, polys = polygonize(xr.DataArray(a), mask=None if mask is None else xr.DataArray(mask), connectivity=case["conn"], **kw)
+    cover = np.zeros((H, W), int)
+    val = np.full((H, W), np.nan)
+    for v, rings in zip(col, polys):
+        rings = [np.asarray(r, dtype="float64") for r in rings]
+        if tr is not None:
+            # undo the affine map  x' = a x + b y + c, y' = d x + e y + f  (b = d = 0 here)
+            rings = [np.column_stack([(r[:, 0] - tr[2]) / tr[0], (r[:, 1] - tr[5]) / tr[4]]) for r in rings]
+        ext, holes = rings[0], rings[1:]
+        if not np.array_equal(ext[0], ext[-1]) or _area2(ext) <= 0:
+            return "exterior ring not closed / not anticlockwise: %r" % ext.tolist()
+        for h in holes:
+            if not np.array_equal(h[0], h[-1]) or _area2(h) >= 0:
+                return "hole not closed / not clockwise: %r" % h.tolist()
+        for r in rings:
+            d = np.abs(np.diff(r, axis=0))
+            if not (((d[:, 0] == 0) ^ (d[:, 1] == 0)).all() and np.allclose(r, np.round(r))):
+                return "ring has a non axis-parallel edge or an off-corner vertex: %r" % r.tolist()
+        cnt = 0
+        for i in range(H):
+            for j in range(W):
+                if _inside(ext, j + .5, i + .5) and not any(_inside(h, j + .5, i + .5) for h in holes):
+                    cover[i, j] += 1
+                    val[i, j] = v
+                    cnt += 1
+        ar = (_area2(ext) + sum(_area2(h) for h in holes)) / 2
+        if abs(ar - cnt) > 1e-9:
+            return "polygon area %r differs from its cell count %d" % (ar, cnt)
+    m = np.ones((H, W), bool) if mask is None else mask
+    if not (cover[m] == 1).all():
+        return "an unmasked cell is covered by %s polygons (cover map %r)" % ("0 or several", cover.tolist())
+    if not (cover[~m] == 0).all():
+        return "a masked cell is covered by a polygon"
+    if not np.array_equal(val[m], a[m].astype(float)):
+        return "rasterising the polygons does not give back the raster values"
+    return None
+
+
+StandIn("c15_polygonize_small_grids", _c15_ex, _c15_check,
+        bound="every raster over {0,1} of shapes 3x3, 2x4, 1x5, 5x1, 1x1 (thorough: + 3x4, 2x5), connectivity 4/8: point-in-polygon "
+              "rasterisation reproduces the raster, one polygon per cell, area = cell count, orientation, axis-parallel edges; JIT on")
+StandIn("c15_polygonize_random", _c15_cases, _c15_check,
+        bound="random rasters up to 8x8 over 2-3 values, int/float dtypes, with and without mask, connectivity 4/8, optional affine transform")
+
+
+# =========================================================================== C05 viewshed vs an O(n^2) evaluation of the stated model
+def _vs_ref(V, a, vr, vc, obs, tgt, ew, ns):
+    """line-of-sight model of the property statement: every cell spans the bearings between its entering and exiting corner,
+    with its gradient interpolated linearly corner -> centre -> corner; a cell is visible iff no nearer cell spanning its
+    centre bearing has a greater gradient.  Tie rules at equal angles follow the sweep's event order (exit < centre < enter)."""
+    PI = np.pi
+    H, W = a.shape
+    a = a.astype(float)
+    vp_elev = a[vr, vc] + obs
+    vt = tgt if tgt > 0 else 0.0
+    out = np.full((H, W), -1.0)
+    out[vr, vc] = 180
+
+    def corner_elev(r, c, typ):
+        r1, c1 = V._calculate_event_row_col(typ, r, c, vr, vc)
+        if 0 <= r1 < H and 0 <= c1 < W:
+            e = [a[r1, c1], a[r1, c], a[r, c1], a[r, c]]
+            if any(np.isnan(x) for x in e):
+                return a[r, c]
+            return sum(e) / 4.0
+        return a[r, c]
+    nodes = {}
+    for r in range(H):
+        for c in range(W):
+            if (r, c) == (vr, vc):
+                continue
+            ay0, ax0 = V._calc_event_pos(1, r, c, vr, vc)
+            ay2, ax2 = V._calc_event_pos(-1, r, c, vr, vc)
+            a0 = V._calculate_angle(ax0, ay0, vc, vr)
+            a1 = V._calculate_angle(c, r, vc, vr)
+            a2 = V._calculate_angle(ax2, ay2, vc, vr)
+            e0, e2, e1 = corner_elev(r, c, 1), corner_elev(r, c, -1), a[r, c]
+            g0 = V._calc_event_grad(ay0, ax0, e0, vr, vc, vp_elev, ew, ns)
+            g2 = V._calc_event_grad(ay2, ax2, e2, vr, vc, vp_elev, ew, ns)
+            key, g1 = V._calc_dist_n_grad(r, c, e1, vr, vc, vp_elev, ew, ns)
+            _, gq = V._calc_dist_n_grad(r, c, e1 + vt, vr, vc, vp_elev, ew, ns)
+            nodes[(r, c)] = dict(a=(a0, a1, a2), g=(g0, g1, g2), key=key, gq=gq, e1=e1)
+    for q, nq in nodes.items():
+        th = nq["a"][1]
+        mx = -np.inf
+        for n, nn in nodes.items():
+            if n == q or not (nn["key"] < nq["key"]):
+                continue
+            a0, a1, a2 = nn["a"]
+            if n[0] == vr and n[1] > vc:
+                act = (th < a2) or (th > a0)
+                A0, A1, A2 = (a0 - 2 * PI, a1, a2) if th < a2 else (a0, a1 + 2 * PI, a2 + 2 * PI)
+            else:
+                act = (a0 < th < a2)
+                A0, A1, A2 = a0, a1, a2
+            if not act or not (A0 <= th <= A2):
+                continue
+            g0, g1, g2 = nn["g"]
+            if th < A1:
+                g = g1 + (g0 - g1) * (A1 - th) / (A1 - A0)
+            elif th > A1:
+                g = g1 + (g2 - g1) * (th - A1) / (A2 - A1)
+            else:
+                g = g1
+            mx = max(mx, g)
+        if mx <= nq["gq"]:
+            out[q] = V._get_vertical_ang(vp_elev, nq["key"], nq["e1"] + vt)
+    return out
+
+
+def _c05_cases(rng, tier, exhaustive=False):
+    if exhaustive:
+        allv = list(itertools.product((0, 1, 2), repeat=9))
+        off = rng.randrange(len(allv)) if tier == "quick" else 0       # the quick tier starts at a seed-dependent terrain
+        for vals in allv[off:] + allv[:off]:
+            for vr in range(3):
+                for vc in range(3):
+                    yield {"H": 3, "W": 3, "cells": list(vals), "vr": vr, "vc": vc, "obs": 0.0, "tgt": 0.0, "dy": 1.0, "dx": 1.0}
+        return
+    while True:
+        H, W = rng.randint(2, 7), rng.randint(2, 7)
+        if rng.random() < 0.3:
+            cells = [round(rng.random() * 3, 3) for _ in range(H * W)]
+        else:
+            cells = [rng.randrange(4) for _ in range(H * W)]
+        yield {"H": H, "W": W, "cells": cells, "vr": rng.randrange(H), "vc": rng.randrange(W), "obs": rng.choice([-1.0, 0.0, 0.0, 2.5]),
+               "tgt": rng.choice([0.0, 0.0, 1.0]), "dy": rng.choice([1.0, 1.0, 2.0, 0.5]), "dx": rng.choice([1.0, 1.0, 3.0])}
+
+
+_c05_ex = lambda rng, tier: _c05_cases(rng, tier, True)
+_c05_ex.exhaustive = True
+
+
+def _c05_check(case):
+    import importlib, warnings
+    import xarray as xr
+    V = importlib.import_module("xrspatial.viewshed")
+    H, W = case["H"], case["W"]
+    a = np.array(case["cells"], dtype="float64").reshape(H, W)
+    r = xr.DataArray(a.copy(), dims=["y", "x"], coords={"y": np.arange(H)[::-1] * case["dy"], "x": np.arange(W) * case["dx"]})
+    vr, vc = case["vr"], case["vc"]
+    with warnings.catch_warnings():
+        warnings.simplefilter("ignore")
+        got = V.viewshed(r, x=r.x.data[vc], y=r.y.data[vr], observer_elev=case["obs"], target_elev=case["tgt"]).data
+    ew = (r.x.data[-1] - r.x.data[0]) / (W - 1)
+    ns = (r.y.data[-1] - r.y.data[0]) / (H - 1)
+    exp = _vs_ref(V, a, vr, vc, case["obs"], case["tgt"], ew, ns)
+    if got[vr, vc] != 180:
+        return "observer cell is %r, not 180" % got[vr, vc]
+    if not np.allclose(got, exp):
+        bad = np.argwhere(~np.isclose(got, exp))
+        i = tuple(bad[0])
+        return "cell %r: viewshed gives %r, the line-of-sight model gives %r (terrain %r, observer %r)" % (i, got[i], exp[i], a.tolist(), (vr, vc))
+    vis = got[(got != -1)]
+    if ((vis < 0) | (vis > 180)).any():
+        return "a visible cell has a vertical angle outside [0, 180]"
+    return None
+
+
+StandIn("c05_viewshed_3x3_exhaustive", _c05_ex, _c05_check,
+        bound="all 3x3 terrains over {0,1,2} x all observer cells (177 147 cases; the quick tier covers the prefix that fits its budget) "
+              "against the O(n^2) line-of-sight model; NUMBA_DISABLE_JIT=1")
+StandIn("c05_viewshed_random", _c05_cases, _c05_check,
+        bound="random terrains 2..7 x 2..7 with ties / plateaus / fractional heights, observer_elev {-1,0,2.5}, target_elev {0,1}, "
+              "non-square cells, against the O(n^2) line-of-sight model; NUMBA_DISABLE_JIT=1")
